@@ -358,6 +358,20 @@ def cases(seed: int = 0, thorough: bool = False):
         {"x": U32, "y": S8}, "mixed-compare", exact=True, always_execute=True)
     add("mixed-compare:sum(u32>s8)", lambda x, y: pt.sum(pt.greater(x, y) * 1), lambda x, y: np.sum((x > y) * 1),
         {"x": U32, "y": S8}, "mixed-compare", exact=True, always_execute=True)
+    # floor division and remainder follow the sign of the DIVISOR (C truncates): every sign combination, mixed widths
+    DA = np.array([7, -7, 7, -7, 0, 5, -5, 1, -1, -9], dtype=np.int64)
+    DB = np.array([2, 2, -2, -2, 3, -5, 5, -1, -1, 4], dtype=np.int64)
+    for lbl, b, r, inp in [
+            ("a//b", lambda x, y: x // y, lambda x, y: x // y, {"x": DA, "y": DB}),
+            ("a%b", lambda x, y: x % y, lambda x, y: x % y, {"x": DA, "y": DB}),
+            ("i32//i8", lambda x, y: x // y, lambda x, y: x // y, {"x": DA.astype(np.int32), "y": DB.astype(np.int8)}),
+            ("i32%i8", lambda x, y: x % y, lambda x, y: x % y, {"x": DA.astype(np.int32), "y": DB.astype(np.int8)}),
+            ("u32//i8", lambda x, y: x // y, lambda x, y: x // y, {"x": np.abs(DA).astype(np.uint32), "y": DB.astype(np.int8)}),
+            ("u32%i8", lambda x, y: x % y, lambda x, y: x % y, {"x": np.abs(DA).astype(np.uint32), "y": DB.astype(np.int8)}),
+            ("a//-3", lambda x: x // -3, lambda x: x // -3, {"x": DA}), ("a%-3", lambda x: x % -3, lambda x: x % -3, {"x": DA}),
+            ("-7//b", lambda y: -7 // y, lambda y: -7 // y, {"y": DB}), ("-7%b", lambda y: -7 % y, lambda y: -7 % y, {"y": DB}),
+            ("(a//b)*b+a%b", lambda x, y: (x // y) * y + x % y, lambda x, y: (x // y) * y + x % y, {"x": DA, "y": DB})]:
+        add(f"signed-divmod:{lbl}", b, r, inp, "signed-divmod", exact=True, always_execute=True)
     # constructors
     for sh in [(2, 3), (), (0, 2)]:
         for dt in ("float64", "int32", "bool"):
@@ -384,6 +398,11 @@ def cases(seed: int = 0, thorough: bool = False):
     for args in [(5,), (1, 6), (0, 10, 3), (10, 0, -3), (2, 2), (5, 2)]:
         add(f"arange:{args}", lambda args=args: pt.arange(*args, dtype=np.int64), lambda args=args: np.arange(*args, dtype=np.int64),
             {}, "construct", exact=True)
+    for args, kw in [((1,), {"stop": 5}), ((), {"stop": 5}), ((), {"start": 1, "stop": 5}), ((), {"start": 1, "stop": 6, "step": 2}),
+                     ((5,), {"step": 2}), ((1, 5), {"step": 2}), ((1,), {"stop": 5, "step": 2}), ((), {}), ((5,), {"start": 1}),
+                     ((1, 5), {"stop": 7}), ((), {"start": 1}), ((), {"stop": 0}), ((), {"stop": -3}), ((7,), {"step": -1})]:
+        add(f"arange-keywords:{args}:{kw}", lambda args=args, kw=kw: pt.arange(*args, dtype=np.int64, **kw),
+            lambda args=args, kw=kw: np.arange(*args, dtype=np.int64, **kw), {}, "construct", exact=True)
     for args in [(0.0, 2.0, 0.5), (3.0, 0.0, -0.75)]:
         add(f"arange-float:{args}", lambda args=args: pt.arange(*args, dtype=np.float64),
             lambda args=args: np.arange(*args, dtype=np.float64), {}, "construct")
